@@ -12,6 +12,10 @@ Line protocol for the configuration-validation model (component `cfgb` of the dr
                                                     (`TrippyConfig::build_config`, strategy-relevant part)
   cfgb multi <mode> <proto i|u|t> <number of targets> <dns-resolve-all 0|1>
       -> ok | err                                   (`validate_multi`)
+  cfgb timing <read-timeout> <min-round> <max-round> <grace> <refresh> <report-cycles>   (nanoseconds)
+      -> ok | err                                   (`validate_read_timeout`, `_round_duration`, `_grace_duration`, `_tui_refresh_rate`, `_report_cycles`)
+  cfgb modes <mode> <strategy> <system resolver> <as-info> <geoip off> <mmdb given>
+      -> ok | err                                   (`validate_flows`, `validate_dns`, `validate_geoip`)
   cfgb priv <unprivileged 0|1> <has 0|1> <needs 0|1>
       -> ok | err                                   (`validate_privilege`)
 -/
@@ -120,6 +124,20 @@ def handle (args : List String) : Option String :=
     let n ← n.toNat?
     let all ← parseBool all
     pure (if validateMulti mode proto n all then "ok" else "err")
+  | ["timing", rt, mn, mx, g, rf, cy] => do
+    -- cfgb timing <read-timeout ns> <min-round ns> <max-round ns> <grace ns> <refresh ns> <report cycles>  -> ok | err
+    let t : Timing := { readTimeout := ← rt.toNat?, minRound := ← mn.toNat?, maxRound := ← mx.toNat?, grace := ← g.toNat?,
+                        refresh := ← rf.toNat?, reportCycles := ← cy.toNat? }
+    pure (if validateTiming t then "ok" else "err")
+  | ["modes", mode, strat, sys, asinfo, geooff, geofile] => do
+    -- cfgb modes <mode> <strategy c|p|d> <system resolver 0|1> <as-info 0|1> <geoip mode off 0|1> <mmdb file given 0|1>  -> ok | err
+    let mode ← (match mode with
+      | "tui" => some OutMode.tui | "stream" => some .stream | "pretty" => some .pretty | "markdown" => some .markdown
+      | "csv" => some .csv | "json" => some .json | "dot" => some .dot | "flows" => some .flows | "silent" => some .silent
+      | _ => none)
+    let s ← parseStrat strat
+    pure (if validateFlows mode s && validateDns (← parseBool sys) (← parseBool asinfo) && validateGeoip (← parseBool geooff) (← parseBool geofile)
+          then "ok" else "err")
   | ["priv", u, h, n] => do
     -- cfgb priv <unprivileged 0|1> <has privileges 0|1> <platform needs privileges 0|1>  -> ok | err
     pure (if validatePrivilege (← parseBool u) (← parseBool h) (← parseBool n) then "ok" else "err")
